@@ -44,6 +44,7 @@ def run(ctx, db, tier):
         reach_rule(ctx, db, ('-UNDEBUG',) if ctx.cfg == 'assert' else ('-DNDEBUG',))
     C06.growth(ctx, db) if False else growth_guard(ctx, db)
     enqueue_only_active(ctx, db)
+    install_constructs_nothing(ctx, db)
     # the ready deque is a named boundary whose only allocation is growth at the back; any other operation on it (shrink_to_fit, resize, a
     # swap with a fresh container ...) re-allocates behind that boundary on otherwise allocation-free paths
     C05.fifo_ops(ctx, db, 'C20.ready-queue-only-fifo-ops')
@@ -153,6 +154,84 @@ def enqueue_only_active(ctx, db):
                     bad = bad or [Item(k='abort', why='callable for normal mode enqueues')]
             ctx.ob(rid, f, f['key'], bad is None, '%s enqueues only in coroutine mode' % name.split('::', 1)[1], desc='%s enqueues into the ready deque outside coroutine mode' % name,
                    trace=fmt_trace(bad) if bad else None)
+
+
+OWNS_HEAP = re.compile(r'\bstd::(?:__cxx11::)?(deque|vector|list|forward_list|map|multimap|set|multiset|unordered_\w+|basic_string|string|w?stringstream|basic_\w*stringstream|function|'
+                       r'any|shared_ptr|unique_ptr|queue|stack|priority_queue|promise|packaged_task|thread|jthread|condition_variable_any)\b')
+
+
+def owns_heap(db, t, depth=4, seen=None):
+    """does an object of type t own heap memory, so that constructing it (may) allocate: a standard container / owning smart pointer /
+    type-erased callable, or a class with such a base or non-static data member held by value (transitively); returns the reason or None"""
+    t = re.sub(r'\b(const|volatile|struct|class)\b', ' ', t or '').strip()
+    if not t or t.endswith(('&', '*')) or '(lambda at' in t.split('<')[0]:
+        return None
+    head = re.sub(r'\s+', ' ', t)
+    if head.startswith('std::'):
+        m = OWNS_HEAP.match(head)
+        if m:
+            return 'std::' + m.group(1)
+        if re.match(r'std::(pair|tuple|array)<', head):
+            # aggregates of values: every argument is constructed with them (an empty std::optional constructs nothing)
+            inner = OWNS_HEAP.search(head[5:])
+            return 'std::%s inside %s' % (inner.group(1), head.split('<')[0]) if inner else None
+        return None
+    seen = seen if seen is not None else set()
+    if depth == 0 or head in seen:
+        return None
+    seen.add(head)
+    for c in db.classes.values():
+        ci = re.sub(r'\b(struct|class)\b ?', '', c.get('inst') or '')
+        hi = re.sub(r'\b(struct|class)\b ?', '', head)
+        if ci == hi or ci.endswith('::' + hi):
+            for x in (c.get('fields') or []):
+                r = owns_heap(db, x.get('canon_type') or x.get('type'), depth - 1, seen)
+                if r:
+                    return '%s %s::%s' % (r, ci.split('<')[0], x.get('name'))
+            for b in (c.get('bases') or []):
+                r = owns_heap(db, b if isinstance(b, str) else (b.get('type') or b.get('name') or ''), depth - 1, seen)
+                if r:
+                    return r
+            return None
+    return None
+
+
+def install_constructs_nothing(ctx, db):
+    rid = ctx.rule('C20.install-constructs-no-heap-owner', 'PATHS', 'coro_queue::install_queue_and_call is what every resumption from normal code goes through: on every path that has not '
+                   'established that a queue is already active it creates no object of a type that owns heap memory (a standard container or a class holding one by value - constructing a '
+                   'std::deque allocates its map and first node) and performs no new-expression / operator new: the queue it installs is the thread\'s existing one', floor=1)
+    T = htracer(db)
+    fs = db.need('cocls::coro_queue::install_queue_and_call')
+    seen = set()
+    for f in fs:
+        trs = [t for t in T.traces(f) if live(t)]
+        if not trs:
+            raise Broken('install_queue_and_call: no live path')
+        ctx.paths(rid, len(trs))
+        bad = None
+        for tr in trs:
+            active = False
+            for i, it in enumerate(tr):
+                if it.k == 'branch' and C05.mode_of([it]) is not None:
+                    active = C05.mode_of([it]) == 'active'
+                if active:
+                    continue
+                why = None
+                if it.k == 'construct' or (it.k == 'decl' and not it.get('ptr') and not it.get('ref') and it.get('init_ev') is None):
+                    why = owns_heap(db, it.get('type'))
+                    why = why and 'an object that owns heap memory is constructed (%s: %s)' % (re.sub(r'\b(struct|class) ', '', it.get('type') or ''), why)
+                elif it.k == 'new' and not it.get('placement'):
+                    why = 'a new-expression is evaluated'
+                elif it.k == 'call' and norm(it.get('callee') or '') == 'operator new':
+                    why = 'operator new is called'
+                if why:
+                    bad = bad or (why + ' on a path where no queue is known to be active: every resumption from normal code allocates', tr[:i + 1])
+        k = (f['key'], bad and bad[0])
+        if k in seen:
+            continue
+        seen.add(k)
+        ctx.ob(rid, f, f['key'], bad is None, 'install_queue_and_call creates no heap-owning object in normal mode' + ('' if not bad else ' -- ' + bad[0]), desc=bad[0][:140] if bad else None,
+               trace=fmt_trace(bad[1]) if bad else None, inst=f['inst'])
 
 
 def storage_learns(ctx, db):
